@@ -44,9 +44,12 @@ def container(rng: Any, blocks: list[Any]) -> tuple[Any, str]:
 
 
 def block(rng: Any, s: Any, depth: int = 0) -> tuple[Any, str]:
-    kind = gen.pick(rng, ['atom', 'atom', 'composition', 'sum', 'block', 'pytree'] if depth == 0 else ['atom', 'composition'])
+    kind = gen.pick(rng, ['atom', 'atom', 'composition', 'sum', 'block', 'pytree', 'static'] if depth == 0 else ['atom', 'composition'])
     if kind == 'atom':
         return gen.atom(rng, s), kind
+    if kind == 'static':
+        # operators without any array parameter (only static fields)
+        return gen.atom(rng, s, only=('identity', 'hwp', 'polarizer', 'ravel', 'reshape', 'moveaxis')), kind
     if kind == 'composition':
         return gen.chain(rng, s, 2, gen.Budget(1, 2, False), 1), kind
     if kind == 'sum':
@@ -71,9 +74,15 @@ def build(rng: Any, which: str) -> tuple[Any, list[Any], str]:
     u = gen.universe(rng)
     small = [k for k in u if dense.size_of(u[k]) <= 8]
     kinds = []
+    all_static = which == 'diag' and rng.integers(5) == 0
     if which == 'diag':
         blocks = []
         for _ in range(n):
+            if all_static:
+                b, k = gen.atom(rng, u[gen.pick(rng, small)], only=('identity', 'hwp', 'polarizer', 'ravel', 'reshape', 'moveaxis')), 'static'
+                blocks.append(b)
+                kinds.append(k)
+                continue
             b, k = block(rng, u[gen.pick(rng, small)])
             blocks.append(b)
             kinds.append(k)
@@ -162,6 +171,20 @@ def case(rng: Any, ctx: Ctx, index: int) -> None:
             LOG.violation('C10', 'C10.transpose', f'Block{which.capitalize()}Operator.T/matrix', f'rel err {err:.3g}', expr=dense.describe(op))
     if 'InverseOperator' not in dense.class_names(op):
         guarded('C10.transpose', j_T)
+
+    def j_reduce() -> None:
+        r = op.reduce()
+        LOG.evaluated('C10.reduce')
+        LOG.count('C10.reduce', f'{which}->{type(r).__name__}')
+        if not (dense.struct_eq_loose(r.in_structure(), op.in_structure()) and dense.struct_eq_loose(r.out_structure(), op.out_structure())):
+            LOG.violation('C10', 'C10.reduce', f'Block{which.capitalize()}Operator.reduce/structures', 'reduce() changed the structures', expr=dense.describe(op),
+                          result=dense.describe(r))
+            return
+        ok, err = dense.close(ref, dense.matrix(r), tol)
+        if not ok:
+            LOG.violation('C10', 'C10.reduce', f'Block{which.capitalize()}Operator.reduce/matrix', f'reduce() changed the block matrix (rel err {err:.3g})',
+                          expr=dense.describe(op), result=dense.describe(r))
+    guarded('C10.reduce', j_reduce)
     LOG.sample({'op': dense.describe(op), 'key': key})
 
 
